@@ -175,8 +175,35 @@ Cycle4(s, prog, fin) ==
      ELSE IF Complete(b) THEN [b EXCEPT !.done = TRUE]
      ELSE b
 
+(* Fast-forward: when every unit is either counting down a latency or idle with empty latches,  *)
+(* nothing but the counters changes until the first of them is about to expire; those cycles are  *)
+(* skipped in one step (the 309-cycle memory accesses dominate every run).  The cycle in which a  *)
+(* counter reaches zero is always simulated by Cycle4.                                            *)
+Quiet(s, n) ==
+  /\ ~s.fclean
+  /\ (s.fcomplete \/ (s.fproc /\ s.frem > 1 /\ s.pc \div 4 < n))
+  /\ (s.dpend \/ s.ebus.p # <<>> \/ BusEmpty(s.dbus))
+  /\ \/ s.epend /\ s.erem > 1
+     \/ ~s.epend /\ s.eproc /\ s.erem > 1
+     \/ ~s.epend /\ ~s.eproc /\ BusEmpty(s.ebus)
+  /\ ((s.wpend /\ s.wcyc > 1) \/ (~s.wpend /\ BusEmpty(s.wbus)))
+Counters(s) ==
+  (IF ~s.fcomplete /\ s.fproc THEN {s.frem - 1} ELSE {})
+  \cup (IF s.epend \/ s.eproc THEN {s.erem - 1} ELSE {})
+  \cup (IF s.wpend THEN {s.wcyc - 1} ELSE {})
+MinOf(S) == CHOOSE x \in S : \A y \in S : x <= y
+Skip(s, d) ==
+  [s EXCEPT !.cycle = @ + d,
+            !.frem = IF ~s.fcomplete /\ s.fproc THEN @ - d ELSE @,
+            !.erem = IF s.epend \/ s.eproc THEN @ - d ELSE @,
+            !.wcyc = IF s.wpend THEN @ - d ELSE @]
+
 RECURSIVE Run4(_, _, _, _)
-Run4(s, prog, fin, fuel) == IF s.done \/ fuel = 0 THEN s ELSE Run4(Cycle4(s, prog, fin), prog, fin, fuel - 1)
+Run4(s, prog, fin, fuel) ==
+  IF s.done \/ fuel = 0 THEN s
+  ELSE IF Quiet(s, Len(prog)) /\ Counters(s) # {} /\ MinOf(Counters(s)) >= 1
+       THEN Run4(Cycle4(Skip(s, MinOf(Counters(s))), prog, fin), prog, fin, fuel - 1)
+       ELSE Run4(Cycle4(s, prog, fin), prog, fin, fuel - 1)
 
 (* the cycle count returned by mvp4.CPU.Run: loop cycles + 309 per resident data line; -1 if the model gave up *)
 CycP(prog, fin, withBtb) ==
